@@ -483,6 +483,125 @@ class Env:
             self.numeric[name] = (np.array([0.0 if bool(cond) else 1.0]), np.array([1.0]), np.array([0.0]), np.array([0.0]))
         return o
 
+    def sign_on_box(self, prop, name, exprs, bounds, sign=1, max_boxes=6000):
+        """every entry of exprs has the given sign (+1: > 0, -1: < 0) for all variable values inside the closed box
+        `bounds` [(regex on the variable name, lo, hi)]: interval branch-and-bound (outward-rounded interval arithmetic of
+        mpmath.iv over the term, bisection of the variable with the largest width x |sensitivity|).  A sub-box whose
+        mid-point has the wrong sign refutes (witness); an exhausted budget is undecided"""
+        from mpmath import iv
+        t0 = time.time()
+        E = np.asarray(exprs, dtype=object if self.sym else float)
+        if not self.sym:
+            ok = (E > 0) if sign > 0 else (E < 0)
+            self.numeric[name] = (np.where(ok, 0.0, 1.0), np.ones(E.shape), E.copy(), np.zeros(E.shape))
+            return None
+        o = self._new(prop, name, "sign")
+
+        def rng(nm):
+            for rx, lo, hi in bounds:
+                if re.search(rx, nm):
+                    return float(lo), float(hi)
+            raise KeyError("sign_on_box: no bound for variable %s" % nm)
+        nboxes = 0
+        for idx in (np.ndindex(*E.shape) if E.shape else [()]):
+            o.n += 1
+            e = E[idx]
+            if not isinstance(e, RF) or e.is_const():
+                c = float(e.cval()) if isinstance(e, RF) else float(e)
+                if c * sign > 0:
+                    o.ok += 1
+                else:
+                    o.refuted.append(dict(entry=list(idx), witness={}, value=c))
+                continue
+            vars_ = sorted(a for a in S.term_deps(e) if S.A.names[a] != "pi")
+            try:
+                box0 = {a: rng(S.A.names[a]) for a in vars_}
+            except KeyError as ex:
+                o.undecided.append(dict(entry=list(idx), reason=str(ex)))
+                continue
+            import heapq
+            import itertools as _it
+            tick = _it.count()
+
+            def vol(b):
+                v = 1.0
+                for a, (lo, hi) in b.items():
+                    v *= (hi - lo) / max(box0[a][1] - box0[a][0], 1e-300)
+                return v
+            todo = [(-1.0, next(tick), box0)]              # largest boxes first: a region of the wrong sign is met early
+            verdict = None
+            used = 0
+            while todo:
+                _, _, bx = heapq.heappop(todo)
+                used += 1
+                if used > max_boxes:
+                    verdict = ("undecided", "interval branch-and-bound budget of %d boxes exhausted" % max_boxes)
+                    break
+                ivb = {a: iv.mpf([lo, hi]) for a, (lo, hi) in bx.items()}
+                try:
+                    enc = S.evaliv(e, ivb)
+                    lo_, hi_ = float(enc.a), float(enc.b)
+                    if (sign > 0 and lo_ > 0) or (sign < 0 and hi_ < 0):
+                        continue
+                except S.IvUnknown as ex:
+                    lo_, hi_ = None, None
+                # mid-point: a wrong sign there refutes
+                mid = {a: 0.5 * (lo + hi) for a, (lo, hi) in bx.items()}
+                try:
+                    vm = float(S.evalf(e, dict(mid, **{a: math.pi for a in S.term_deps(e) if S.A.names[a] == "pi"}), None, MP))
+                    if vm * sign <= 0 and abs(vm) > 0:
+                        verdict = ("refuted", {S.A.names[a]: v for a, v in mid.items()}, vm)
+                        break
+                except (S.Undefined, ZeroDivisionError, ValueError, OverflowError):
+                    pass
+                # bisect the variable whose halves bring the enclosure closest to the wanted sign: score = the worse of the two
+                # halves' lo/hi (sign +) resp. hi/lo (sign -), which is invariant under positive factors common to all terms
+                best, score = None, None
+                for a, (lo, hi) in bx.items():
+                    w = hi - lo
+                    if w <= 1e-9 * max(1.0, abs(lo), abs(hi)):
+                        continue
+                    m_ = 0.5 * (lo + hi)
+                    sc = 0.0
+                    try:
+                        worst = None
+                        for part in ((lo, m_), (m_, hi)):
+                            ivb2 = dict(ivb)
+                            ivb2[a] = iv.mpf(list(part))
+                            en = S.evaliv(e, ivb2)
+                            ea, eb = float(en.a), float(en.b)
+                            if sign > 0:
+                                q = 1.0 if ea > 0 else ea / max(abs(eb), abs(ea), 1e-300)
+                            else:
+                                q = 1.0 if eb < 0 else -eb / max(abs(eb), abs(ea), 1e-300)
+                            worst = q if worst is None else min(worst, q)
+                        sc = worst
+                    except S.IvUnknown:
+                        sc = -2.0 + w / max(abs(lo), abs(hi), 1e-30) * 1e-3        # singular box: prefer the relatively widest variable
+                    if score is None or sc > score:
+                        best, score = a, sc
+                if best is None:
+                    verdict = ("undecided", "box cannot be split further")
+                    break
+                lo, hi = bx[best]
+                m_ = 0.5 * (lo + hi)
+                b1 = dict(bx); b1[best] = (lo, m_)
+                b2 = dict(bx); b2[best] = (m_, hi)
+                heapq.heappush(todo, (-vol(b1), next(tick), b1))
+                heapq.heappush(todo, (-vol(b2), next(tick), b2))
+            nboxes += used
+            if verdict is None:
+                o.ok += 1
+                if o.sample is None:
+                    o.sample = "%s%s: sign(%s) == %+d on the box (%d interval boxes)" % (name, list(idx), S.show(e, 3), sign, used)
+            elif verdict[0] == "refuted":
+                o.refuted.append(dict(entry=list(idx), witness=verdict[1], value=verdict[2], solver="interval branch-and-bound: wrong sign at a box mid-point"))
+            else:
+                o.undecided.append(dict(entry=list(idx), reason=verdict[1]))
+        o.secs = time.time() - t0
+        self.iv_boxes = getattr(self, "iv_boxes", 0) + nboxes
+        return o
+
     def positive(self, prop, name, exprs, bounds):
         """every entry of exprs is > 0 for all variable values inside the box `bounds` {variable name: (lo, hi)} (closed
         intervals): polynomial obligations discharged by z3 (QF_NRA); refuted ones carry z3's model as witness"""
